@@ -182,7 +182,7 @@ CHECKS["C07"] = {
             "targets, added hashes, remember indexes and the returned UpdateData. After every block: held leaves == (previous minus deleted) plus remembered adds "
             "(both directions), each paired with the model's position, proof hashes == model canonical proof, Verify accepts, and the proof equals Pollard.Prove "
             "for the same leaves. Non-trivial: contains a block with a non-empty cache before and after in which a cached leaf changes position or a leaf is "
-            "remembered. Counted: remembered last leaf, remembered leaf that is a lone root, remembering in a block that overwrites an empty root. In 2 of 3 cases a second stump / light client follows the SAME forest embedded behind 2^k (+2^j) opaque leaves, k up to 62 (layouts of up to 63 rows): positions are shifted by the independent geometry and everything is checked again there.",
+            "remembered. Counted: remembered last leaf, remembered leaf that is a lone root, remembering in a block that overwrites an empty root. In 2 of 3 cases a second stump / light client follows the SAME forest embedded behind 2^k (+2^j) opaque leaves, k up to 62 (layouts of up to 63 rows): positions are shifted by the independent geometry and everything is checked again there. Deterministic scale probes: the C01 scale history with a sparse remembered set on 2^9 and 2^12 leaves (thorough up to 2^14), also embedded behind 2^40 opaque leaves.",
     "assumptions": COMMON_ASSUME,
 }
 MANIFEST_TEXT["C07"] = {
@@ -220,7 +220,7 @@ CHECKS["C08"] = {
             "leaf was added by the undone block, none is invented (only previously held leaves or leaves the block deleted), no leaf live before and after is "
             "lost, every held leaf is paired with the model's position, the proof hashes are the model's canonical ones and Verify accepts against the "
             "previous stump; the same exact check runs after every later Proof.Update (redo / other branch). Non-trivial: an undo with a non-empty cache "
-            "before and after of a block that both deleted and added. In 2 of 3 cases a second stump / light client follows the SAME forest embedded behind 2^k (+2^j) opaque leaves, k up to 62 (layouts of up to 63 rows): positions are shifted by the independent geometry and everything is checked again there.",
+            "before and after of a block that both deleted and added. In 2 of 3 cases a second stump / light client follows the SAME forest embedded behind 2^k (+2^j) opaque leaves, k up to 62 (layouts of up to 63 rows): positions are shifted by the independent geometry and everything is checked again there. Deterministic scale probes: that history on 2^9 and 2^12 leaves (thorough up to 2^14) undone to depth 3, another branch, undone to the empty accumulator (also embedded behind 2^33 opaque leaves).",
     "assumptions": COMMON_ASSUME + ["leaves the undone block deleted may or may not be restored (documented as not restored): both accepted"],
 }
 MANIFEST_TEXT["C08"] = {
@@ -261,7 +261,7 @@ CHECKS["C10"] = {
             "tracked leaf, every deleted leaf, every leaf of an undone branch, fresh values, every inner node hash, every root hash and the zero hash; "
             "GetHash for every position in [0, 2^(rows+1)+8] plus {2^32, 2^32+1, 2^62, 2^63, 2^63+5, 2^64-2, 2^64-1}; tracked-leaf counts. Expected answers "
             "come from the reference model (a partial forest must answer truthfully where it must store, may answer zero in the optional band, must answer "
-            "zero elsewhere). Non-trivial: a state with >=1 deletion probed with >=1 dead leaf, >=1 inner-node hash and >=1 non-existent position.",
+            "zero elsewhere). Non-trivial: a state with >=1 deletion probed with >=1 dead leaf, >=1 inner-node hash and >=1 non-existent position. Deterministic scale probes: the scale history with restore and two undos on 2^9 and 2^11 leaves (thorough up to 2^15 = tens of thousands of tracked leaves), every look-up probed after every step.",
     "assumptions": COMMON_ASSUME + ["for a position beyond the last external position a map forest may answer with the node at that position of its own TotalRows layout (the repository's tests pass such coordinates) or with zero",
                                     "a live leaf that a partial forest was never asked to remember on the surviving branch may or may not be known: not asserted"],
 }
@@ -316,7 +316,7 @@ CHECKS["C14"] = {
             "union proof assembled from A's hashes plus the true hashes at exactly those positions verifies; MapPollard.GetMissingPositions(req) equals the canonical "
             "proof positions absent from the forest's exported node map (and never a position the forest must store), VerifyPartialProof with exactly those hashes "
             "succeeds (remember off and on, C09 invariant re-checked) and fails when the last one is withheld. Non-trivial: A and B overlap or some target's sibling "
-            "is also a target, and an input is not position-sorted.",
+            "is also a target, and an input is not position-sorted. Deterministic scale probes: states of 1022 and 3000 (thorough 9000) leaves, 9+ trees, 20 held row-0 targets combined with / completed by 1300 newer ones.",
     "assumptions": COMMON_ASSUME + ["AddProof's result order is not fixed by the statement: targets are compared as a duplicate-free set with parallel hashes",
                                     "'stored' for MapPollard.GetMissingPositions is read from the exported Nodes map and bounded by the model (required positions must never be reported)"],
 }
